@@ -3,262 +3,111 @@ From PG Require Import Lib.Strs Model.Tags Model.Surface Proofs.Tags.
 From Coq Require Import Lia PeanoNat Permutation.
 
 (* ====================================================================================== *)
-(* Part 1 — grouping: MocksEmitter (first tag, raw) vs EndpointsEmitter (every tag, key)   *)
+(* Part 1 — grouping: MocksEmitter (after the fix of F13a/F13b) vs EndpointsEmitter        *)
 (* ====================================================================================== *)
 Section Grouping.
-  Variable tag_key : str -> str.
-  Variable score : str -> bool * N * N.
-
-  Definition single_tag (l : list op) : Prop := forall o, In o l -> (length (o_tags o) <= 1)%nat.
-  (* two first-tags with the same normalised key are the same string *)
-  Definition uniform (ts : list str) : Prop :=
-    forall a b, In a ts -> In b ts -> tag_key a = tag_key b -> a = b.
-
-  Lemma single_tag_default : forall o, (length (o_tags o) <= 1)%nat -> tags_or_default o = [first_tag o].
-  Proof.
-    intros o H. unfold tags_or_default, first_tag. destruct (o_tags o) as [|t [|t' r]]; simpl in *;
-      [reflexivity | reflexivity | lia].
-  Qed.
-
-  Definition keyify {V} (d : list (str * V)) : list (str * V) := map (fun tg => (tag_key (fst tg), snd tg)) d.
-
-  Lemma keyify_aappend : forall {V} (d : list (str * list V)) t (v : V),
-    (forall t0, In t0 (map fst d) -> tag_key t0 = tag_key t -> t0 = t) ->
-    keyify (aappend d t v) = aappend (keyify d) (tag_key t) v.
-  Proof.
-    induction d as [|[t0 g] d IH]; intros t v H; simpl; [reflexivity|].
-    destruct (str_eqb t t0) eqn:E.
-    - apply str_eqb_eq in E. subst t0. rewrite str_eqb_refl. reflexivity.
-    - assert (X : str_eqb (tag_key t) (tag_key t0) = false).
-      { apply str_eqb_neq. intro K. apply str_eqb_neq in E. apply E. symmetry.
-        apply H; [left; reflexivity | symmetry; exact K]. }
-      rewrite X. simpl. f_equal. apply IH. intros t1 Hin. apply H. right. exact Hin.
-  Qed.
-
-  Lemma aappend_keys_in : forall {V} (d : list (str * list V)) t (v : V) x,
-    In x (map fst (aappend d t v)) -> x = t \/ In x (map fst d).
-  Proof.
-    induction d as [|[t0 g] d IH]; intros t v x H; simpl in *.
-    - destruct H as [<-|[]]. left. reflexivity.
-    - destruct (str_eqb t t0); simpl in H.
-      + right. exact H.
-      + destruct H as [<-|H]; [right; left; reflexivity|].
-        destruct (IH _ _ _ H) as [->|H']; [left; reflexivity | right; right; exact H'].
-  Qed.
-
-  (* one fold, generic in what is appended (the operation itself, or its tag) *)
-  Lemma fold_keyify : forall {V} (f : op -> V) l (d : list (str * list V)),
-    uniform (map fst d ++ map first_tag l) ->
-    keyify (fold_left (fun d o => aappend d (first_tag o) (f o)) l d)
-    = fold_left (fun d o => aappend d (tag_key (first_tag o)) (f o)) l (keyify d).
-  Proof.
-    induction l as [|o l IH]; intros d U; simpl; [reflexivity|].
-    rewrite IH.
-    - f_equal. apply keyify_aappend. intros t0 Hin K. apply U; [| |exact K].
-      + apply in_or_app. left. exact Hin.
-      + apply in_or_app. right. left. reflexivity.
-    - intros a b Ha Hb K. apply U; [| |exact K].
-      + apply in_app_or in Ha. destruct Ha as [Ha|Ha].
-        * destruct (aappend_keys_in _ _ _ _ Ha) as [->|Ha'].
-          -- apply in_or_app. right. left. reflexivity.
-          -- apply in_or_app. left. exact Ha'.
-        * apply in_or_app. right. right. exact Ha.
-      + apply in_app_or in Hb. destruct Hb as [Hb|Hb].
-        * destruct (aappend_keys_in _ _ _ _ Hb) as [->|Hb'].
-          -- apply in_or_app. right. left. reflexivity.
-          -- apply in_or_app. left. exact Hb'.
-        * apply in_or_app. right. right. exact Hb.
-  Qed.
-
-  Lemma fold_left_ext_in : forall {A B} (f g : A -> B -> A) l a,
-    (forall a b, In b l -> f a b = g a b) -> fold_left f l a = fold_left g l a.
-  Proof.
-    induction l as [|x l IH]; intros a H; simpl; [reflexivity|].
-    rewrite H by (left; reflexivity). apply IH. intros a' b Hb. apply H. right. exact Hb.
-  Qed.
-
-  (* under single_tag, the emitter's fold over tags_or_default is the fold over the first tag *)
-  Lemma group_single : forall l, single_tag l ->
-    group tag_key l = fold_left (fun d o => aappend d (tag_key (first_tag o)) o) l [].
-  Proof.
-    intros l H. unfold group. apply fold_left_ext_in. intros d o Hin.
-    unfold group_step, group_tags. rewrite (single_tag_default o (H o Hin)). reflexivity.
-  Qed.
-  Lemma candidates_single : forall l, single_tag l ->
-    candidates tag_key l = fold_left (fun d o => aappend d (tag_key (first_tag o)) (first_tag o)) l [].
-  Proof.
-    intros l H. unfold candidates. apply fold_left_ext_in. intros d o Hin.
-    unfold cand_step. rewrite (single_tag_default o (H o Hin)). reflexivity.
-  Qed.
-
-  (* the mock groups ARE the endpoint groups (same order, same operations) up to key normalisation *)
-  Theorem groups_agree : forall l, single_tag l -> uniform (map first_tag l) ->
-    keyify (mock_groups l) = group tag_key l.
-  Proof.
-    intros l S U. rewrite (group_single l S). unfold mock_groups.
-    rewrite (fold_keyify (fun o => o) l []); [reflexivity | exact U].
-  Qed.
-
-  (* ... and every candidate list consists of the group's raw tag only, so the canonical tag chosen
-     by the emitter / ClientVisitor is the very tag MocksEmitter uses *)
-  Definition mock_cands (l : list op) : list (str * list str) :=
-    fold_left (fun d o => aappend d (first_tag o) (first_tag o)) l [].
-
-  Lemma aappend_all_key : forall (d : list (str * list str)) t,
-    Forall (fun tg => Forall (eq (fst tg)) (snd tg) /\ snd tg <> []) d ->
-    Forall (fun tg => Forall (eq (fst tg)) (snd tg) /\ snd tg <> []) (aappend d t t).
-  Proof.
-    induction d as [|[t0 g] d IH]; intros t H; simpl.
-    - constructor; [|constructor]. simpl. split; [constructor; [reflexivity | constructor] | discriminate].
-    - inversion H as [|? ? [H1 H2] Ht]; subst. destruct (str_eqb t t0) eqn:E.
-      + apply str_eqb_eq in E. subst t0. constructor; [|exact Ht]. simpl in *. split.
-        * apply Forall_app. split; [exact H1 | constructor; [reflexivity | constructor]].
-        * destruct g; discriminate.
-      + constructor; [split; assumption | apply IH, Ht].
-  Qed.
-
-  Lemma mock_cands_inv : forall l, Forall (fun tg => Forall (eq (fst tg)) (snd tg) /\ snd tg <> []) (mock_cands l).
-  Proof.
-    intro l. unfold mock_cands.
-    assert (G : forall l d, Forall (fun tg => Forall (eq (fst tg)) (snd tg) /\ snd tg <> []) d ->
-                Forall (fun tg => Forall (eq (fst tg)) (snd tg) /\ snd tg <> [])
-                       (fold_left (fun d o => aappend d (first_tag o) (first_tag o)) l d)).
-    { induction l0 as [|o l0 IH]; intros d Hd; simpl; [exact Hd|]. apply IH, aappend_all_key, Hd. }
-    apply G. constructor.
-  Qed.
-
-  Lemma str_ltb_irrefl : forall a, str_ltb a a = false.
-  Proof. induction a as [|x a IH]; simpl; [reflexivity|]. rewrite N.ltb_irrefl. exact IH. Qed.
-  Lemma score_gtb_irrefl : forall t, score_gtb score t t = false.
-  Proof.
-    intro t. unfold score_gtb. destruct (score t) as [[p w] u].
-    rewrite Bool.eqb_reflx, !N.eqb_refl. apply str_ltb_irrefl.
-  Qed.
-  Lemma max_by_same : forall t g, Forall (eq t) g -> max_by score t g = t.
-  Proof.
-    intros t g H. induction H as [|x g <- _ IH]; simpl; [reflexivity|].
-    rewrite score_gtb_irrefl. exact IH.
-  Qed.
-
-  Lemma aappend_fst : forall {V W} (d1 : list (str * list V)) (d2 : list (str * list W)) t (v : V) (w : W),
-    map fst d1 = map fst d2 -> map fst (aappend d1 t v) = map fst (aappend d2 t w).
-  Proof.
-    induction d1 as [|[k1 g1] d1 IHd]; destruct d2 as [|[k2 g2] d2]; simpl; intros t v w H; try discriminate; [reflexivity|].
-    inversion H as [[H1 H2]]. subst k2. destruct (str_eqb t k1); simpl; [rewrite H2; reflexivity|].
-    f_equal. apply IHd, H2.
-  Qed.
-
-  Lemma mock_cands_fst : forall l, map fst (mock_cands l) = map fst (mock_groups l).
-  Proof.
-    intro l. unfold mock_cands, mock_groups.
-    assert (G : forall l (d1 : list (str * list str)) (d2 : list (str * list op)), map fst d1 = map fst d2 ->
-      map fst (fold_left (fun d o => aappend d (first_tag o) (first_tag o)) l d1)
-      = map fst (fold_left (fun d o => aappend d (first_tag o) o) l d2)).
-    { induction l0 as [|o l0 IH]; intros d1 d2 H; simpl; [exact H|]. apply IH, aappend_fst, H. }
-    apply G. reflexivity.
-  Qed.
-
-  Theorem tags_agree : forall l, single_tag l -> uniform (map first_tag l) ->
-    emitter_tags tag_key score l = map (fun tg => (tag_key (fst tg), fst tg)) (mock_groups l).
-  Proof.
-    intros l S U. unfold emitter_tags. rewrite (candidates_single l S).
-    pose proof (fold_keyify (fun o => first_tag o) l [] U) as K. simpl in K.
-    fold (mock_cands l) in K. rewrite <- K. unfold keyify. rewrite map_map. simpl.
-    pose proof (mock_cands_inv l) as I. pose proof (mock_cands_fst l) as F.
-    assert (X : map (fun x : str * list str => (tag_key (fst x), emitter_best score (snd x))) (mock_cands l)
-                = map (fun x => (tag_key x, x)) (map fst (mock_cands l))).
-    { rewrite map_map. apply map_ext_in. intros [t g] Hin. simpl.
-      rewrite Forall_forall in I. destruct (I _ Hin) as [I1 I2]. simpl in *.
-      destruct g as [|x g]; [contradiction I2; reflexivity|]. simpl.
-      pose proof (Forall_inv I1) as E. pose proof (Forall_inv_tail I1) as I1'. simpl in E.
-      rewrite <- E, (max_by_same t g I1'). reflexivity. }
-    rewrite X, F, map_map. reflexivity.
-  Qed.
-
-  (* same methods per tag: every mock group is the endpoint group of its key *)
-  Theorem same_methods_partial : forall l, single_tag l -> uniform (map first_tag l) ->
-    same_methods tag_key l.
-  Proof.
-    intros l S U t g Hin. pose proof (group_keys_nodup tag_key l) as N.
-    rewrite <- (groups_agree l S U) in N. rewrite <- (groups_agree l S U).
-    apply alookup_in; [exact N|].
-    unfold keyify. apply in_map_iff. exists (t, g). split; [reflexivity | exact Hin].
-  Qed.
-End Grouping.
-
-(* ---------- refutations of the unguarded grouping statements ---------- *)
-Definition s_admin : str := [97;100;109;105;110].
-Definition ident_any (s : str) : bool := negb (is_nil s).
-(* F13a — one operation tagged Users and admin *)
-Definition ops_F13a : list op := [ {| o_id := s_a; o_method := s_GET; o_path := s_pa; o_tags := [s_Users; s_admin] |} ].
-Theorem refuted_F13a :
-  guard_F13a ops_F13a = false
-  /\ mock_props idf key_F07c ident_any ops_F13a = Some [s_users]
-  /\ client_props idf key_F07c key_F07c idf no_score ident_any ops_F13a = Some [s_admin; s_users]
-  /\ ~ same_tags idf key_F07c key_F07c idf no_score ident_any ops_F13a.
-Proof.
-  split; [reflexivity|]. split; [vm_compute; reflexivity|]. split; [vm_compute; reflexivity|].
-  intros (m & c & Hm & Hc & H). vm_compute in Hm, Hc. inversion Hm; inversion Hc; subst.
-  assert (X : In s_admin [s_users]) by (apply H; left; reflexivity).
-  destruct X as [X|[]]. discriminate.
-Qed.
-
-(* F13b — Users on one operation, users on another *)
-Definition ops_F13b : list op :=
-  [ {| o_id := s_a; o_method := s_GET; o_path := s_pa; o_tags := [s_Users] |};
-    {| o_id := s_b; o_method := s_POST; o_path := s_pa; o_tags := [s_users] |} ].
-Theorem refuted_F13b :
-  guard_F13a ops_F13b = true /\ guard_F13b key_F07c ops_F13b = false
-  /\ mock_props idf key_F07c ident_any ops_F13b = None
-  /\ mock_files idf key_F07c idf ops_F13b = [(s_users, (k_Mock ++ s_users ++ s_Client, [s_b]))]
-  /\ ~ same_methods key_F07c ops_F13b.
-Proof.
-  repeat split; try (vm_compute; reflexivity).
-  intro H. specialize (H s_Users [nth 0 ops_F13b op_F07c]).
-  assert (X : In (s_Users, [nth 0 ops_F13b op_F07c]) (mock_groups ops_F13b)) by (vm_compute; left; reflexivity).
-  apply H in X. vm_compute in X. discriminate.
-Qed.
-
-(* F01e FIXED — regression: without any operation both clients have no tag property and agree *)
-Theorem fixed_F01e :
-  mock_props idf idf ident_any [] = Some [] /\ client_props idf idf idf idf no_score ident_any [] = Some []
-  /\ same_tags idf idf idf idf no_score ident_any [].
-Proof.
-  split; [reflexivity|]. split; [reflexivity|].
-  exists [], []. repeat split; try reflexivity; intros [].
-Qed.
-
-Definition ops_ok13 : list op :=
-  [ {| o_id := s_a; o_method := s_GET; o_path := s_pa; o_tags := [s_Users] |};
-    {| o_id := s_b; o_method := s_POST; o_path := s_pa; o_tags := [] |};
-    {| o_id := s_foo; o_method := s_POST; o_path := s_a; o_tags := [s_Users] |} ].
-Theorem grouping_guard_nonvacuous :
-  single_tag ops_ok13 /\ uniform key_F07c (map first_tag ops_ok13) /\ length (mock_groups ops_ok13) = 2%nat.
-Proof.
-  split; [|split; [|reflexivity]].
-  - intros o [<-|[<-|[<-|[]]]]; simpl; lia.
-  - intros a b Ha Hb. vm_compute in Ha, Hb.
-    destruct Ha as [<-|[<-|[<-|[]]]]; destruct Hb as [<-|[<-|[<-|[]]]]; vm_compute; intro E; try reflexivity; discriminate.
-Qed.
-
-(* executable guards imply the Prop guards *)
-Lemma guard_F13a_single : forall l, guard_F13a l = true -> single_tag l.
-Proof.
-  intros l H o Hin. unfold guard_F13a in H. rewrite forallb_forall in H.
-  apply Nat.leb_le. apply H, Hin.
-Qed.
-Lemma guard_F13b_uniform : forall tk l, guard_F13b tk l = true -> uniform tk (map first_tag l).
-Proof.
-  intros tk l H a b Ha Hb K. unfold guard_F13b in H. rewrite forallb_forall in H.
-  specialize (H a Ha). rewrite forallb_forall in H. specialize (H b Hb).
-  rewrite K, str_eqb_refl in H. simpl in H. apply str_eqb_eq. exact H.
-Qed.
-
-(* ---------- same tag properties on MockAPIClient and APIClient (under the guards) ---------- *)
-Section SameTags.
   Variable method_name tag_key tag_attr tag_class : str -> str.
   Variable score : str -> bool * N * N.
   Variable py_ident : str -> bool.
+
+  Notation ops_of_key := (ops_of_key tag_key).
+  Notation mock_groups := (mock_groups tag_key score).
+  Notation group := (group tag_key).
+  Notation emitter_tags := (emitter_tags tag_key score).
+  Notation contrib := (contrib tag_key).
+  Notation group_tags := (group_tags tag_key).
+
+  Lemma dedup_keys_sub : forall ts seen t, In t (dedup_keys_go tag_key seen ts) -> In t ts.
+  Proof.
+    induction ts as [|x ts IH]; intros seen t H; simpl in *; [contradiction|].
+    destruct (mem_str (tag_key x) seen).
+    - right. apply (IH _ _ H).
+    - destruct H as [<-|H]; [left; reflexivity | right; apply (IH _ _ H)].
+  Qed.
+
+  Lemma mem_key_iff : forall k ts, mem_str k (map tag_key ts) = true <-> exists t, In t ts /\ tag_key t = k.
+  Proof.
+    intros k ts. rewrite mem_str_In, in_map_iff. split; intros [t [A B]]; exists t; tauto.
+  Qed.
+
+  Lemma contrib_nonempty_iff : forall k o,
+    negb (is_nil (contrib k o)) = mem_str k (map tag_key (tags_or_default o)).
+  Proof.
+    intros k o. destruct (mem_str k (map tag_key (tags_or_default o))) eqn:E.
+    - apply mem_key_iff in E. destruct E as [t [Ht Ek]].
+      destruct (group_tags_key_in tag_key o t Ht) as [t' [Ht' Ek']].
+      unfold Proofs.Tags.contrib.
+      assert (X : In t' (filter (fun t0 => str_eqb k (tag_key t0)) (group_tags o))).
+      { apply filter_In. split; [exact Ht'|]. rewrite Ek', Ek. apply str_eqb_refl. }
+      destruct (filter _ (group_tags o)); [contradiction | reflexivity].
+    - unfold Proofs.Tags.contrib.
+      destruct (filter (fun t0 => str_eqb k (tag_key t0)) (group_tags o)) as [|t' r] eqn:F; [reflexivity|].
+      exfalso. assert (X : In t' (filter (fun t0 => str_eqb k (tag_key t0)) (group_tags o))) by (rewrite F; left; reflexivity).
+      apply filter_In in X. destruct X as [X1 X2]. apply str_eqb_eq in X2.
+      assert (M : mem_str k (map tag_key (tags_or_default o)) = true).
+      { apply mem_key_iff. exists t'. split; [apply (dedup_keys_sub _ [] _ X1) | symmetry; exact X2]. }
+      congruence.
+  Qed.
+
+  (* the filter MocksEmitter applies is exactly the endpoint group of that key *)
+  Theorem ops_of_key_group : forall l k, ops_of_key k l = alookup_l k (group l).
+  Proof.
+    intros l k. rewrite (group_lookup tag_key l k).
+    rewrite (flat_map_contrib_filter tag_key l k) by (intros; apply group_tags_nodupb).
+    unfold Surface.ops_of_key. apply filter_ext. intro o. symmetry. apply contrib_nonempty_iff.
+  Qed.
+
+  Lemma canon_ops_nonempty : forall l k c, In (k, c) (emitter_tags l) -> ops_of_key (tag_key c) l <> [].
+  Proof.
+    intros l k c Hin. destruct (canon_ok tag_key score l k c Hin) as [_ T].
+    unfold all_tags in T. apply in_flat_map in T. destruct T as [o [Ho Hc]].
+    assert (X : In o (ops_of_key (tag_key c) l)).
+    { apply filter_In. split; [exact Ho|]. apply mem_key_iff. exists c. split; [exact Hc | reflexivity]. }
+    intro E. rewrite E in X. contradiction.
+  Qed.
+
+  Definition mg_entry (l : list op) (kc : str * str) : str * list op := (snd kc, ops_of_key (tag_key (snd kc)) l).
+
+  Lemma canon_nodup : forall l, NoDup (map snd (emitter_tags l)).
+  Proof.
+    intro l. apply NoDup_map_inj_on.
+    - apply (NoDup_map_inv fst), emitter_tags_nodup.
+    - intros [k1 c1] [k2 c2] H1 H2 E. simpl in E. subst c2.
+      destruct (canon_ok tag_key score l k1 c1 H1) as [K1 _]. destruct (canon_ok tag_key score l k2 c1 H2) as [K2 _].
+      subst. reflexivity.
+  Qed.
+
+  Lemma filter_all_true : forall {A} (f : A -> bool) l, (forall x, In x l -> f x = true) -> filter f l = l.
+  Proof.
+    induction l as [|x l IH]; intro H; simpl; [reflexivity|].
+    rewrite (H x (or_introl eq_refl)), IH; [reflexivity|]. intros y Hy. apply H. right. exact Hy.
+  Qed.
+
+  (* no canonical tag repeats (the dict loses nothing) and no group is empty (emit() skips nothing) *)
+  Theorem mock_groups_eq : forall l, mock_groups l = map (mg_entry l) (sort_by_key (emitter_tags l)).
+  Proof.
+    intro l. unfold Surface.mock_groups. rewrite (clients_mirror tag_key score l).
+    change (map (fun kc : str * str => (snd kc, ops_of_key (tag_key (snd kc)) l)) (sort_by_key (emitter_tags l)))
+      with (map (mg_entry l) (sort_by_key (emitter_tags l))).
+    pose proof (sort_by_key_perm (emitter_tags l)) as P.
+    rewrite dict_of_nodup.
+    - apply filter_all_true. intros [t g] Hin. apply in_map_iff in Hin. destruct Hin as [[k c] [E Hk]].
+      inversion E; subst t g. apply (Permutation_in _ P) in Hk. simpl.
+      pose proof (canon_ops_nonempty l k c Hk) as NE. destruct (ops_of_key (tag_key c) l); [contradiction NE; reflexivity | reflexivity].
+    - rewrite map_map. simpl. apply (Permutation_NoDup (l := map snd (emitter_tags l))); [|apply canon_nodup].
+      apply Permutation_map, Permutation_sym, P.
+  Qed.
+
+  (* C13 same methods, FULL: every mock group is the endpoint group of its tag — all operation lists *)
+  Theorem same_methods_full : forall l, same_methods tag_key score l.
+  Proof.
+    intros l t g Hin. rewrite mock_groups_eq in Hin. apply in_map_iff in Hin.
+    destruct Hin as [[k c] [E Hk]]. unfold mg_entry in E. simpl in E. inversion E; subst t g. clear E.
+    apply (Permutation_in _ (sort_by_key_perm (emitter_tags l))) in Hk.
+    pose proof (canon_ops_nonempty l k c Hk) as NE.
+    rewrite ops_of_key_group in *. unfold alookup_l in *.
+    destruct (alookup (tag_key c) (group l)); [reflexivity | contradiction NE; reflexivity].
+  Qed.
 
   Lemma emitted_tags : forall l, map o_tags (emitted_ops method_name l) = map o_tags l.
   Proof.
@@ -269,47 +118,71 @@ Section SameTags.
     intro l. unfold emitted_ops, dedup_ops. rewrite !G. reflexivity.
   Qed.
 
-  Lemma first_tag_tags : forall a b, map o_tags a = map o_tags b -> map first_tag a = map first_tag b.
+  Lemma nodupb_perm : forall a b, Permutation a b -> nodupb a = true -> nodupb b = true.
+  Proof. intros a b P H. apply nodupb_NoDup. apply nodupb_NoDup in H. apply (Permutation_NoDup P H). Qed.
+  Lemma forallb_perm : forall (f : str -> bool) a b, Permutation a b -> forallb f a = true -> forallb f b = true.
   Proof.
-    induction a as [|x a IH]; destruct b as [|y b]; simpl; intro H; try discriminate; [reflexivity|].
-    inversion H as [[H1 H2]]. unfold first_tag at 1 3. rewrite H1. f_equal. apply IH, H2.
+    intros f a b P H. apply forallb_forall. intros x Hx. rewrite forallb_forall in H.
+    apply H. apply (Permutation_in _ (Permutation_sym P)), Hx.
   Qed.
-  Lemma guard_F13a_tags : forall a b, map o_tags a = map o_tags b -> guard_F13a a = guard_F13a b.
-  Proof.
-    induction a as [|x a IH]; destruct b as [|y b]; simpl; intro H; try discriminate; [reflexivity|].
-    inversion H as [[H1 H2]]. rewrite H1. f_equal. apply IH, H2.
-  Qed.
-  Lemma guard_F13b_tags : forall a b, map o_tags a = map o_tags b -> guard_F13b tag_key a = guard_F13b tag_key b.
-  Proof. intros a b H. unfold guard_F13b. rewrite (first_tag_tags a b H). reflexivity. Qed.
 
-  (* Under single_tag [F13a], tags_spelled_uniformly [F13b] and pairwise distinct identifier module names
-     (the C07 guard: negation of F07e / fixed F07d): mock_client.py and client.py are both importable and
-     MockAPIClient has exactly the tag properties of APIClient — for every operation list *)
-  Theorem same_tags_partial : forall l,
-    guard_F13a l = true -> guard_F13b tag_key l = true ->
+  (* C13 same tags: MockAPIClient and APIClient have the same tag properties for every operation list whose
+     canonical module names are pairwise distinct identifiers (modules_ok — the C07 guard, negation of F07e) *)
+  Theorem same_tags_full : forall l,
     modules_ok tag_key tag_attr score py_ident (emitted_ops method_name l) = true ->
     same_tags method_name tag_key tag_attr tag_class score py_ident l.
   Proof.
-    intros l Ha Hb Hm. set (e := emitted_ops method_name l) in *.
-    pose proof (emitted_tags l) as ET. fold e in ET.
-    rewrite <- (guard_F13a_tags e l ET) in Ha. rewrite <- (guard_F13b_tags e l ET) in Hb.
-    pose proof (tags_agree tag_key score e (guard_F13a_single e Ha) (guard_F13b_uniform tag_key e Hb)) as TA.
-    assert (M : map (fun tg : str * list op => tag_attr (fst tg)) (mock_groups e)
-                = map (fun kc : str * str => tag_attr (snd kc)) (emitter_tags tag_key score e)).
-    { rewrite TA, map_map. reflexivity. }
+    intros l Hm. set (e := emitted_ops method_name l) in *.
     destruct (reachable method_name tag_key tag_attr tag_class score py_ident l Hm) as (t & Pt & Perm & _ & _).
     fold e in Perm.
     unfold modules_ok in Hm. apply andb_true_iff in Hm. destruct Hm as [Hn Hi].
-    exists (map (fun tg : str * list op => tag_attr (fst tg)) (mock_groups e)), (map fst t).
-    split; [|split].
-    - unfold mock_props. fold e. rewrite M, Hn, Hi. reflexivity.
+    set (mods := map (fun kc : str * str => tag_attr (snd kc)) (emitter_tags e)) in *.
+    set (mm := map (fun tg : str * list op => tag_attr (fst tg)) (mock_groups e)).
+    assert (Q : Permutation mods mm).
+    { unfold mm, mods. rewrite mock_groups_eq, map_map. simpl.
+      apply Permutation_sym. apply (Permutation_map (fun kc : str * str => tag_attr (snd kc))), sort_by_key_perm. }
+    exists mm, (map fst t). split; [|split].
+    - unfold mock_props. fold e. fold mm. rewrite (nodupb_perm _ _ Q Hn), (forallb_perm _ _ _ Q Hi). reflexivity.
     - unfold client_props. unfold props_of in Pt. rewrite Pt. reflexivity.
-    - intro x. rewrite M.
-      assert (Q : Permutation (map fst t) (map (fun kc : str * str => tag_attr (snd kc)) (emitter_tags tag_key score e))).
+    - intro x.
+      assert (R : Permutation (map fst t) mods).
       { apply (Permutation_map fst) in Perm. rewrite map_map in Perm. exact Perm. }
-      split; intro H; [apply (Permutation_in _ (Permutation_sym Q)), H | apply (Permutation_in _ Q), H].
+      split; intro H.
+      + apply (Permutation_in _ (Permutation_sym R)), (Permutation_in _ (Permutation_sym Q)), H.
+      + apply (Permutation_in _ Q), (Permutation_in _ R), H.
   Qed.
-End SameTags.
+End Grouping.
+
+(* ---------- regressions of the fixed findings ---------- *)
+Definition s_admin : str := [97;100;109;105;110].
+Definition ident_any (s : str) : bool := negb (is_nil s).
+(* F13a FIXED — one operation tagged Users and admin: both tags have a mock group and a property *)
+Definition ops_F13a : list op := [ {| o_id := s_a; o_method := s_GET; o_path := s_pa; o_tags := [s_Users; s_admin] |} ].
+Theorem fixed_F13a :
+  mock_props idf key_F07c key_F07c no_score ident_any ops_F13a = Some [s_admin; s_users]
+  /\ client_props idf key_F07c key_F07c idf no_score ident_any ops_F13a = Some [s_admin; s_users]
+  /\ map (fun tg => (fst tg, map o_id (snd tg))) (mock_groups key_F07c no_score ops_F13a) = [(s_admin, [s_a]); (s_Users, [s_a])].
+Proof. repeat split; vm_compute; reflexivity. Qed.
+
+(* F13b FIXED — Users on one operation, users on another: one mock group with both operations *)
+Definition ops_F13b : list op :=
+  [ {| o_id := s_a; o_method := s_GET; o_path := s_pa; o_tags := [s_Users] |};
+    {| o_id := s_b; o_method := s_POST; o_path := s_pa; o_tags := [s_users] |} ].
+Theorem fixed_F13b :
+  mock_props idf key_F07c key_F07c no_score ident_any ops_F13b = Some [s_users]
+  /\ client_props idf key_F07c key_F07c idf no_score ident_any ops_F13b = Some [s_users]
+  /\ map (fun tg => map o_id (snd tg)) (mock_groups key_F07c no_score ops_F13b) = [[s_a; s_b]]
+  /\ mock_files idf key_F07c key_F07c idf no_score ops_F13b = [(s_users, (k_Mock ++ s_users ++ s_Client, [s_a; s_b]))].
+Proof. repeat split; vm_compute; reflexivity. Qed.
+
+(* F01e FIXED — regression: without any operation both clients have no tag property and agree *)
+Theorem fixed_F01e :
+  mock_props idf idf idf no_score ident_any [] = Some [] /\ client_props idf idf idf idf no_score ident_any [] = Some []
+  /\ same_tags idf idf idf idf no_score ident_any [].
+Proof.
+  split; [reflexivity|]. split; [reflexivity|].
+  exists [], []. repeat split; try reflexivity; intros [].
+Qed.
 
 (* ====================================================================================== *)
 (* Part 2 — the line scanners are exact on every well-formed signature                     *)
